@@ -64,6 +64,11 @@ def gen(rng, tier):
             for w in ("C", "T", "S", "C-sum"):
                 cases.append({"kind": "levels", "perm": list(p_), "wrapper": w, "seed": rng.randrange(10 ** 6),
                               "ordered": True})
+    # without levels= the levels of a numeric factor are in NUMERIC order: first = default reference (C, T), last =
+    # default omitted level (S)
+    for vals in ([5, 10, 15], [-2, -1, 0, 1], [8, 9, 10, 11], [100, 20, 3]):
+        for w in ("C", "T", "S", "C-sum"):
+            cases.append({"kind": "numlevels", "values": vals, "wrapper": w, "seed": rng.randrange(10 ** 6)})
     # levels= with a repeated entry is refused (a level list names every level once)
     for dup in (["a", "b", "a"], ["a", "b", "c", "b"], ["c", "c", "a", "b"], ["a", "a"]):
         for w in ("C", "T", "S", "C-sum"):
@@ -94,6 +99,14 @@ def model_cmd(c):
 def _design_case(c):
     import random
     rng = random.Random(c["seed"])
+    if c["kind"] == "numlevels":
+        lv = list(c["values"])
+        n = rng.randint(len(lv) + 2, 12)
+        vals = lv + [rng.choice(lv) for _ in range(n - len(lv))]
+        rng.shuffle(vals)
+        fr = {"columns": [dm.col("y", "float", [str(rng.randint(-5, 5)) for _ in range(n)]), dm.col("q", "int", vals)]}
+        call = {"C": "C(q)", "T": "T(q)", "S": "S(q)", "C-sum": "C(q, Sum)"}[c["wrapper"]]
+        return f"y ~ {call}", fr, {}
     if c["kind"] == "levels":
         lv = sorted(c["perm"])
         n = rng.randint(len(lv) + 2, 14)
@@ -267,6 +280,18 @@ def oracle(c):
                 return f"full sum labels {full.labels}, expected {['mean'] + kept} (omit {levels[o]!r})"
             if not np.array_equal(Fm, np.column_stack([np.ones(n, dtype=int), R])):
                 return f"full sum coding is not [1 | reduced coding] (n={n}, omit {levels[o]!r})"
+        return None
+    if c["kind"] == "numlevels":
+        f, fr, extra = _design_case(c)
+        d = dm.build({"formula": f, "frame": fr, "extra": extra})
+        name = f.split("~")[1].strip()
+        t = d.common.terms[name]
+        lv = sorted(set(c["values"]))
+        labs = [l[len(name) + 1:-1] for l in t.labels]
+        want = [str(v) for v in (lv[1:] if c["wrapper"] in ("C", "T") else lv[:-1])]
+        if labs != want:
+            return (f"{f!r} on values {sorted(set(c['values']))}: columns {labs}, expected {want} (numeric order; the first "
+                    f"level is the default reference, sum omits the last)")
         return None
     if c["kind"] == "levels":
         f, fr, extra = _design_case(c)
